@@ -557,6 +557,8 @@ def v_getattr(interp, v, name):
         from . import sums as _s
 
         return lambda axis=None, **k: _s.reduce_opaque(interp, v, axis, "std", nonneg=True)
+    if name == "split" and z3.is_string(v.t) and not v.axes:
+        return lambda sep=None, maxsplit=-1: str_split(v, sep, maxsplit)
     if name == "cumsum":
         from . import sums as _s
 
@@ -588,6 +590,60 @@ def v_getattr(interp, v, name):
 
         return fillna
     raise Undecided(f"attribute .{name} of a symbolic array has no theory entry")
+
+
+ALIAS = {}  # z3 string term id -> an equal term in concatenation form (stated as a precondition by the harness)
+SEPFREE = {}  # z3 string term id -> set of separators the term is known not to contain (precondition of a harness)
+
+
+def _concat_pieces(t):
+    if z3.is_app(t) and t.decl().kind() == z3.Z3_OP_SEQ_CONCAT:
+        out = []
+        for c in t.children():
+            out += _concat_pieces(c)
+        return out
+    return [t]
+
+
+def str_split(v, sep, maxsplit=-1):
+    """str.split(sep[, maxsplit]) of a string built as a concatenation of pieces: literal pieces equal to `sep`
+    separate components; every other piece must be known not to contain `sep` (literal without it, or a symbolic
+    piece registered in SEPFREE by the harness' precondition)."""
+    _use("str.split(sep, maxsplit) on a concatenation of separator-free pieces")
+    if not isinstance(sep, str) or len(sep) != 1:
+        raise Undecided("split with a non-literal / multi-character separator")
+    comps, cur = [], []
+    vt = ALIAS.get(v.t.get_id(), v.t)
+    for p in _concat_pieces(vt):
+        if z3.is_string_value(p):
+            lit = p.as_string()
+            if lit == sep:
+                comps.append(cur)
+                cur = []
+                continue
+            if sep in lit:
+                raise Undecided("literal piece containing the separator inside")
+            cur.append(p)
+        else:
+            if sep not in SEPFREE.get(p.get_id(), ()):
+                raise Undecided(f"split of a string piece not known to be free of {sep!r}")
+            cur.append(p)
+    comps.append(cur)
+
+    def join(ps):
+        if not ps:
+            return z3.StringVal("")
+        return ps[0] if len(ps) == 1 else z3.Concat(*ps)
+
+    if maxsplit is not None and maxsplit >= 0 and len(comps) > maxsplit + 1:
+        head = comps[:maxsplit]
+        rest = []
+        for i, c in enumerate(comps[maxsplit:]):
+            if i:
+                rest.append(z3.StringVal(sep))
+            rest += c
+        comps = head + [rest]
+    return [V(join(c)) for c in comps]
 
 
 class StrAccessor:
